@@ -210,18 +210,13 @@ func newCliRunGated(name string, cfg CliCfg) *CliRun {
 			r.detGate.wait("d")
 		}
 	}
-	// the detector goroutine starts inside NewClient: adopt the new *Client at its first hook call
-	cliCreateMu.Lock()
-	adoptMu.Lock()
-	adoptRun, adoptGate = r.Run, gatef
-	adoptMu.Unlock()
+	// The detector goroutine starts inside NewClient and may make its first pass - over an empty target map, which does
+	// nothing - before the constructor returns: that pass is neither recorded nor gated. (Earlier the harness "adopted" an
+	// unknown *Client at its first hook call; a hook of some other client arriving in that window was adopted as well and
+	// its events ended up in the wrong trace.)
 	cl := rpc.NewClient(nil)
 	route(cl, r.Run)
 	setGate(cl, gatef)
-	adoptMu.Lock()
-	adoptRun, adoptGate = nil, nil
-	adoptMu.Unlock()
-	cliCreateMu.Unlock()
 	cl.Transport = r.rt
 	switch cfg.Policy {
 	case "random":
